@@ -185,6 +185,13 @@ func verifAll(n int, f func(j int) bool) bool {
 
 func verifObjID(x interface{}) int { return 0 }
 
+// model threads (partial-order mode). Natively they are only registered.
+var verifThreads []func()
+
+func verifThread(name string, f func()) { verifThreads = append(verifThreads, f) }
+func verifFinal(name string, f func())  { verifThreads = append(verifThreads, f) }
+func verifSpawn(f func())               { go f() }
+
 // ropes: reference byte streams. Natively plain byte slices.
 var verifRopes = map[int][]byte{}
 
